@@ -303,7 +303,14 @@ class GWorld(World):
             raise it.err(node, f"DiGraph.{attr} is not in the graph model")
         if isinstance(o, NodeViewV):
             if attr == "data":
-                return _Bound(lambda *a, **k: [(n, d) for n, d in o.g.node.items()])
+                def data(data=True, default=None):
+                    # networkx NodeView.data(data=True, default=None)
+                    if data is True:
+                        return [(n, d) for n, d in o.g.node.items()]
+                    if data is False:
+                        return list(o.g.node)
+                    return [(n, d[data] if data in d else default) for n, d in o.g.node.items()]
+                return _Bound(data)
             if attr == "items":
                 return _Bound(lambda: [(n, d) for n, d in o.g.node.items()])
             if attr == "values":
@@ -340,7 +347,7 @@ class GWorld(World):
                     raise Raised("TypeError", node, it.stack[-1].fi if it.stack else None, str(ex))
                 raise
         if isinstance(f, Obj) and f.kind == "view":
-            m = self.prog.lookup_method(f.cls, "__call__")
+            m = it.find_method(f.cls, "__call__")
             if m is not None:
                 return it.call_function(FuncV(m, f, defcls=m.cls), list(args), dict(kwargs), node)
             return NXV.base_method(self, it, f, "__call__", node).fn(*args, **kwargs)
